@@ -17,7 +17,8 @@ RULE = ("Directed multigraphs (1-9 nodes, integer edge costs 0..5 incl. zero-cos
         "/ BFS and a path validator. Non-trivial: no goal reachable from a start with >=2 reachable nodes, or a "
         "reachable goal at distance >0 with a strictly sub-optimal alternative edge or a zero-cost edge on a "
         "shortest path; distinct by spec hash."
-        ' Also: consistent heuristics not proportional to the exact one (relaxed goal sets, capped / shifted exact), free moves, origin-centred (hash-colliding) integer and coordinate labels.')
+        ' Also: consistent heuristics not proportional to the exact one (relaxed goal sets, capped / shifted exact), free moves, origin-centred (hash-colliding) integer and coordinate labels.'
+        ' Both problems converted with from_mdp first, planning on the earlier conversion.')
 ASSUMPTIONS = ["integer costs and dyadic heuristic scalings keep A*'s float arithmetic exact"]
 
 
